@@ -321,6 +321,18 @@ func BreakHTTPRule(r *R, rule, pkgPrefix, tag string) *Broken {
 	default:
 		panic("unknown rule " + rule)
 	}
+	// every third case: the offending variable shares its path segment with literal text (`{id}:archive`,
+	// `{id}.csv`, `v{id}`) — it is a variable of the template all the same
+	if rule != "bodiless_unbound_fields" && meth.Config != nil && tagNo(tag)%3 == 2 {
+		v := "{" + b.Offender + "}"
+		if rule == "path_and_query" || rule == "path_var_non_scalar_kind" || rule == "path_var_not_singular" {
+			v = "{id}"
+		}
+		if strings.Contains(meth.Config.Path, v) {
+			meth.Config.Path = strings.Replace(meth.Config.Path, v, []string{v + ":archive", v + ".csv", "v" + v}[tagNo(tag)/3%3], 1)
+			b.Variant += " [variable inside a segment]"
+		}
+	}
 	b.Messages = append([]*ir.Message{bad}, b.Messages...)
 	b.Method = meth
 	return b
